@@ -240,17 +240,36 @@ pub fn c16_valfuzz_report(tier: &str, seed: u64) -> crate::report::Report {
             }
             let over = n > 65535;
             let exp_c = rf::Packet::Connect(expected_connect(&c, true, true, c.client_id.as_deref().unwrap_or("")));
-            let pk = gv::OutboundPacket::Connect { options: build_connect_options(&c), connected_previously: false, client_id_override: None };
-            if let Ok(Ok(bytes)) = catch_unwind(AssertUnwindSafe(|| gv::encode(&pk, ProtocolMode::Mqtt5, none, &[1 << 21]))) {
+            // what the client actually transmits: open a connection on the real engine with these
+            // options and collect everything it emits until it has nothing more to do
+            let mut spec = EngineSpec::default();
+            spec.connect = c.clone();
+            spec.v5 = true;
+            let emitted: Option<(Vec<u8>, bool)> = catch_unwind(AssertUnwindSafe(|| {
+                let mut runner = Runner::new(spec, 1 << 21);
+                let open = runner.apply(Event::Open { deadline_ms: 30_000 });
+                let refused = open.result.is_err();
+                let mut bytes = Vec::new();
+                for _ in 0..4 {
+                    let rec = runner.apply(Event::Service);
+                    bytes.extend_from_slice(&rec.emitted);
+                    if rec.emitted.is_empty() { break; }
+                }
+                (bytes, refused)
+            })).ok();
+            if let Some((bytes, refused)) = emitted {
                 l.count("c16.connect_fields_checked");
                 let decoded = rf::decode_all(&bytes, true);
                 let faithful = matches!(&decoded, Ok(ps) if ps.len() == 1 && ps[0] == exp_c);
-                if over && !faithful {
-                    l.violation("C16.V5-oversize-connect-field-transmitted", &[("field", field.into())], format!("connect option {} of {} bytes is encoded into a CONNECT that does not carry it (16-bit length prefix truncated)", field, n), json!({"kind": "connect-field", "field": field, "len": n}));
-                } else if !over && !faithful {
-                    l.violation("C16.V6-connect-field-at-limit-corrupted", &[("field", field.into())], format!("connect option {} of {} bytes not recovered from the CONNECT", field, n), json!({"kind": "connect-field", "field": field, "len": n}));
+                if over {
+                    if refused && bytes.is_empty() { l.count("c16.oversize_connect_refused_locally"); }
+                    else if !faithful {
+                        l.violation("C16.V5-oversize-connect-field-transmitted", &[("field", field.into())], format!("connect option {} of {} bytes: the engine transmitted {} bytes of CONNECT that do not carry it (16-bit length prefix truncated)", field, n, bytes.len()), json!({"kind": "connect-field", "field": field, "len": n}));
+                    }
+                } else if !faithful {
+                    l.violation("C16.V6-connect-field-at-limit-corrupted", &[("field", field.into()), ("refused", refused.to_string())], format!("connect option {} of {} bytes (legal) not recovered from the CONNECT the engine transmitted ({} bytes, refused at open: {})", field, n, bytes.len(), refused), json!({"kind": "connect-field", "field": field, "len": n}));
                 }
-            }
+            } else { let _ = take_panic(); l.violation("C16.V0-validation-panic", &[("where", "connect-options".into())], format!("opening a connection with a {}-byte {} panicked", n, field), json!({"kind": "connect-field", "field": field, "len": n})); }
         }
     })
 }
